@@ -14,11 +14,11 @@ TABLE = {
                 thorough=[dict(n=40, blocks=40), dict(n=40, blocks=40, seed_off=50), dict(n=30, blocks=30, boundary=True),
                           dict(n=30, blocks=60, maxtx=8, seed_off=70)],
                 need=[("transfer", True), ("staking", True), ("unstaking", True), ("withdraw", True), ("evidence", True)]),
-    "C04": dict(evm=True, directed=["evm_nested_revert", "evm_sweep_to_zero", "native_to_contract", "evm_basic", "evm_fail", "evm_mixed", "evm_selfdestruct", "transfer_to_created", "nonce_replay", "fee_edges", "setdoc_and_accounts"],
+    "C04": dict(evm=True, directed=["zero_gas_price", "evm_nested_revert", "evm_sweep_to_zero", "native_to_contract", "evm_basic", "evm_fail", "evm_mixed", "evm_selfdestruct", "transfer_to_created", "nonce_replay", "fee_edges", "setdoc_and_accounts"],
                 quick=[dict(n=8, blocks=20, maxtx=7)],
                 thorough=[dict(n=50, blocks=40, maxtx=8), dict(n=50, blocks=40, maxtx=8, seed_off=31)],
                 need=[("transfer", True), ("transfer", False), ("staking", True)]),
-    "C05": dict(evm=True, directed=["evm_odd_addresses", "evm_rejected_then_more", "native_to_contract", "wrap_amount", "evm_fail", "evm_nested_revert", "fee_edges", "nonce_replay", "vote_window_edges", "forced_unbond", "huge_stake", "same_block_withdraw",
+    "C05": dict(evm=True, directed=["zero_gas_price", "evm_odd_addresses", "evm_rejected_then_more", "native_to_contract", "wrap_amount", "evm_fail", "evm_nested_revert", "fee_edges", "nonce_replay", "vote_window_edges", "forced_unbond", "huge_stake", "same_block_withdraw",
                           "setdoc_and_accounts", "price_change"],
                 quick=[dict(n=8, blocks=20, maxtx=7), dict(n=3, blocks=15, boundary=True)],
                 thorough=[dict(n=50, blocks=40, maxtx=8), dict(n=40, blocks=40, maxtx=8, seed_off=11), dict(n=30, blocks=30, boundary=True)],
@@ -47,7 +47,7 @@ TABLE = {
                 quick=[dict(n=8, blocks=30)],
                 thorough=[dict(n=60, blocks=50), dict(n=60, blocks=60, seed_off=37)],
                 need=[("proposal", True), ("proposal", False), ("voting", True), ("voting", False)]),
-    "C16": dict(evm=True, directed=["mingas_above_intrinsic", "native_to_contract", "evm_rejected_then_more", "evm_basic", "evm_value", "evm_fail", "evm_selfdestruct", "transfer_to_created", "fee_edges", "price_change", "no_proposer_block", "two_proposals_one_block", "same_block_withdraw", "many_unbonding"],
+    "C16": dict(evm=True, directed=["zero_gas_price", "mingas_above_intrinsic", "native_to_contract", "evm_rejected_then_more", "evm_basic", "evm_value", "evm_fail", "evm_selfdestruct", "transfer_to_created", "fee_edges", "price_change", "no_proposer_block", "two_proposals_one_block", "same_block_withdraw", "many_unbonding"],
                 quick=[dict(n=8, blocks=25, maxtx=7)],
                 thorough=[dict(n=60, blocks=40, maxtx=8), dict(n=60, blocks=40, maxtx=8, seed_off=41)],
                 need=[("transfer", True), ("transfer", False), ("withdraw", True)]),
@@ -56,7 +56,7 @@ TABLE = {
                 quick=[dict(n=4, blocks=20, maxtx=7)],
                 thorough=[dict(n=40, blocks=40, maxtx=8), dict(n=20, blocks=30, boundary=True)],
                 need=[("transfer", True), ("transfer", False), ("voting", True), ("proposal", True), ("setdoc", True), ("unstaking", True), ("withdraw", True)]),
-    "C17": dict(directed=["prefund_then_create", "evm_odd_addresses", "evm_sweep_to_zero", "evm_quiet_blocks", "evm_rejected_then_more", "native_to_contract", "evm_basic", "evm_value", "evm_nested_revert", "evm_selfdestruct", "evm_fail", "transfer_to_created", "evm_mixed"], evm=True,
+    "C17": dict(directed=["zero_gas_price", "prefund_then_create", "evm_odd_addresses", "evm_sweep_to_zero", "evm_quiet_blocks", "evm_rejected_then_more", "native_to_contract", "evm_basic", "evm_value", "evm_nested_revert", "evm_selfdestruct", "evm_fail", "transfer_to_created", "evm_mixed"], evm=True,
                 quick=[dict(n=8, blocks=25, maxtx=6)],
                 thorough=[dict(n=60, blocks=40, maxtx=8), dict(n=60, blocks=40, maxtx=8, seed_off=47), dict(n=30, blocks=30, boundary=True, seed_off=53)],
                 need=[("contract", True), ("contract", False), ("transfer", True)]),
